@@ -804,6 +804,59 @@ def r_loop_break_value(sig, body, arg):
     return sig, body[:m.start()] + new + tail, 1
 
 
+_POLY_MAP_DEF = "pub fn map<G: Clone, C: FnMut(&F) -> G>(&self, closure: C) -> Polynomial<G> { Polynomial::<G>::new(self.coefficients.iter().map(closure).collect_vec()) }"
+
+
+def r_poly_map(sig, body, arg):
+    """R4 (through the one-line definition of Polynomial::map, which is checked to be unchanged in
+    polynomial.rs): `let X = RECV.map(|[&]c| E);` -> a loop over RECV.coefficients pushing E, then
+    `Polynomial::new(..)`; a trailing method chain (e.g. `.fft()`) is kept."""
+    import os
+    src = open(os.path.join(os.environ.get("VERIF_REPO", "/repo"), "falcon-rust", "src", "polynomial.rs")).read()
+    m = re.search(r"pub fn map<G: Clone, C: FnMut\(&F\) -> G>\(&self, closure: C\) -> Polynomial<G> \{.*?\n    \}", src, re.S)
+    if not m or re.sub(r"\s+", " ", m.group(0)).strip() != _POLY_MAP_DEF:
+        return sig, body, 0
+    n = 0
+    pat = re.compile(r"let\s+(\w+)\s*=\s*([\w.\[\]]+)\.map\(\|\s*&?(\w+)\s*\|")
+    pos = 0
+    while True:
+        mm = pat.search(body, pos)
+        if not mm:
+            break
+        o = body.index(".map(", mm.start()) + 4
+        c = _match_paren(body, o)
+        inner = body[o + 1:c]
+        cm = re.match(r"\|\s*&?(\w+)\s*\|\s*(.*)$", inner, re.S)
+        expr, _ = _strip_deref(cm.group(2).strip(), [cm.group(1)])
+        semi = body.index(";", c)
+        chain = body[c + 1:semi]
+        n += 1
+        vec = "vx_pm%d" % n
+        new = ("let mut %s = Vec::new();\n    for vx_i in 0..%s.coefficients.len() {\n        let %s = %s.coefficients[vx_i];\n        %s.push(%s);\n    }\n    let %s = Polynomial::new(%s)%s;"
+               % (vec, mm.group(2), cm.group(1), mm.group(2), vec, expr, mm.group(1), vec, chain))
+        body = body[:mm.start()] + new + body[semi + 1:]
+        pos = mm.start() + len(new)
+    return sig, body, n
+
+
+def r_any_chain(sig, body, arg):
+    """R4: `if RECV.iter()[.skip(A)].any(|P| E) {` -> a flag loop hoisted in front of the `if` (no early
+    exit; the flag has the same value)."""
+    n = 0
+    pat = re.compile(r"if\s+([\w.]+?)\.iter\(\)(?:\.skip\(((?:[^()]|\([^()]*\))*)\))?\.any\(\|\s*&?(\w+)\s*\|\s*([^)]*\))\s*\)\s*\{")
+    while True:
+        m = pat.search(body)
+        if not m:
+            break
+        n += 1
+        flag = "vx_any%d" % n
+        lo = "0" if m.group(2) is None else "vx_min(%s, %s.len())" % (m.group(2), m.group(1))
+        pre = ("let mut %s = false;\n        for vx_i in %s..%s.len() {\n            let %s = %s[vx_i];\n            if %s { %s = true; }\n        }\n        "
+               % (flag, lo, m.group(1), m.group(3), m.group(1), m.group(4), flag))
+        body = body[:m.start()] + pre + "if %s {" % flag + body[m.end():]
+    return sig, body, n
+
+
 RULES = {
     "Self": r_self,
     "Generic": r_generic,
@@ -836,6 +889,8 @@ RULES = {
     "VarOpAssign": r_var_opassign,
     "SliceBinding": r_slice_binding,
     "LoopBreakValue": r_loop_break_value,
+    "PolyMap": r_poly_map,
+    "AnyChain": r_any_chain,
 }
 RULE_IDS = {"Self": "R1", "Generic": "R1", "BoolAssign": "R2", "ForUnderscore": "R3",
             "BitVecIndex": "R6"}
